@@ -216,6 +216,11 @@ func (a *recApp) ToApp(m *quickfix.Message, _ quickfix.SessionID) error {
 }
 func (a *recApp) FromAdmin(m *quickfix.Message, _ quickfix.SessionID) quickfix.MessageRejectError {
 	a.hdr("FromAdmin", m)
+	if t, _ := m.Header.GetString(35); t == "A" {
+		if txt, err := m.Body.GetString(58); err == nil && txt == "REJECT" {
+			return quickfix.RejectLogon{Text: "application refuses this logon"}
+		}
+	}
 	return nil
 }
 func (a *recApp) FromApp(m *quickfix.Message, _ quickfix.SessionID) quickfix.MessageRejectError {
@@ -534,6 +539,9 @@ func (e Event) String() string { return e.Name }
 // Enabled tells whether the real run loop could dispatch this event now.
 func (w *World) Enabled(e *Event) bool {
 	sn := w.VS.Snapshot()
+	if sn.Stopped && e.K != "send" {
+		return false // the run loop has exited
+	}
 	switch e.K {
 	case "connect":
 		return !sn.Connected
